@@ -22,5 +22,11 @@ for tc in ET.parse(sys.argv[1]).getroot().iter('testcase'):
 print("stable_tests_broken=%d" % len(bad)); print("stable_seen=%d of %d" % (len(seen & stable), len(stable)))
 for t in bad[:10]: print("BROKEN", t)
 PY
+# tests that depend on process-global random state can fail under xdist: re-run the broken ones serially
+broken=$(grep '^BROKEN' $out.result | awk '{print $2}' | sed -e 's/::/ /' | awk '{gsub(/\./,"/",$1); print $1".py::"$2}')
+if [ -n "$broken" ]; then
+  ./py -m pytest -q -p no:cacheprovider --timeout=1800 $broken > $out.rerun.log 2>&1; echo "serial_rerun_rc=$?" >> $out.result
+  tail -1 $out.rerun.log >> $out.result
+fi
 cd /; git -C /repo worktree remove --force $wt
 echo "done" >> $out.result
